@@ -17,7 +17,7 @@ Proof. exact AuthProofs.C04_constant. Qed.
 Print Assumptions C04_constant.
 
 Theorem C04_constant_minutes :
-  src_ALLOWED_MISMATCH_MINUTES = 15%Z /\ ns_per_s = 1000000000%Z.
+  src_allowed_mismatch_ns = (15 * 60 * 1000000000)%Z /\ ns_per_s = 1000000000%Z.
 Proof. exact AuthProofs.C04_constant_minutes. Qed.
 Print Assumptions C04_constant_minutes.
 
